@@ -577,3 +577,42 @@ Lemma refute_node_constructed :
   Bip32Kholaw.node_from_priv unit (fun _ _ => tt) tt (fun _ => false) (fun _ => repeat 0 32) (repeat 255 64) (repeat 0 32) 0
   = Ok refute_node.
 Proof. vm_compute. reflexivity. Qed.
+
+(* ================================================================== 7. ChildKey(int) statements for Props/C14.v *)
+Section ChildKeyZ.
+  Variable hmac_sha512 : list N -> list N -> list N.
+  Variable G : Type.
+  Variable gadd : G -> G -> G.
+  Variable gmul : N -> G -> G.
+  Variable gbase : G.
+  Variable g_is_zero : G -> bool.
+  Variable penc : G -> list N.
+  Variable pdec : list N -> option G.
+  Notation child_key := (Bip32Kholaw.child_key hmac_sha512 G gadd gmul gbase g_is_zero penc pdec).
+  Notation kh_derivator := (Bip32Kholaw.kh_derivator G gmul gbase g_is_zero penc).
+  Notation by_derivator := (ByronLegacyDeriv.by_derivator G gmul gbase g_is_zero penc).
+
+  Lemma index_ok_of_N i : index_ok i = true -> i = Z.of_N (Z.to_N i).
+  Proof. unfold index_ok. intros H. apply andb_true_iff in H. destruct H as [H _]. apply Z.leb_le in H. rewrite Z2N.id; auto. Qed.
+
+  (* CardanoByronLegacyBip32.ChildKey(int) on a private object: every int *)
+  Lemma by_child_key_family n k (i : Z) : n_priv n = Some k -> in_family (child_key by_derivator n i) = true.
+  Proof.
+    intros P. destruct (index_ok i) eqn:I.
+    - rewrite (index_ok_of_N i I). exact (by_child_key_priv_family hmac_sha512 G gadd gmul gbase g_is_zero penc pdec n k _ P).
+    - unfold Bip32Kholaw.child_key. rewrite I. reflexivity.
+  Qed.
+
+  (* Bip32KholawEd25519.ChildKey(int) / CardanoIcarusBip32.ChildKey(int) on a private object with kL + 2^227 <= 2^256 *)
+  Lemma kh_child_key_partial_family n k (i : Z) : (forall k m, bytes_ok (hmac_sha512 k m)) ->
+    n_priv n = Some k -> KL k + 2 ^ 227 <= 2 ^ 256 -> in_family (child_key kh_derivator n i) = true.
+  Proof.
+    intros Hok P B. destruct (index_ok i) eqn:I.
+    - rewrite (index_ok_of_N i I).
+      assert (B1 : KL k + N.of_nat 1 * 2 ^ 227 <= 2 ^ 256) by (change (N.of_nat 1) with 1; lia).
+      pose proof (kh_child_key_spec hmac_sha512 G gadd gmul gbase g_is_zero penc pdec Hok n k (Z.to_N i) 0 P B1) as S.
+      unfold C14b.kh_ckd in S.
+      destruct (child_key kh_derivator n (Z.of_N (Z.to_N i))) as [n'|e]; [reflexivity|exact S].
+    - unfold Bip32Kholaw.child_key. rewrite I. reflexivity.
+  Qed.
+End ChildKeyZ.
